@@ -281,25 +281,34 @@ def run_transform_case(ctx, name, sspec, tspec, keys, pop, use_solver, wrap, sta
             "solver": bool(use_solver), "wrapper": wrap[0]}
     # ---- the real call -------------------------------------------------
     res, exc, extra, T = None, None, {}, None
+    # `keys` may be any iterable: every third call passes a one-shot iterator, every third a generator
+    stats["kform"] = stats.get("kform", 0) + 1
+    if keys is None or stats["kform"] % 3 == 0:
+        keys_arg = keys
+    elif stats["kform"] % 3 == 1:
+        keys_arg = iter(list(keys))
+    else:
+        keys_arg = (k_ for k_ in list(keys))
+    case["keys_form"] = type(keys_arg).__name__
     with warnings.catch_warnings(record=True) as wlog, Spy() as spy:
         warnings.simplefilter("always")
         try:
             if wrap[0] == "v":
-                res = src.transform_to(tgt, populate=populate, keys=keys, solver=solver)
+                res = src.transform_to(tgt, populate=populate, keys=keys_arg, solver=solver)
                 T = res
             elif wrap[0] == "p":
                 ptr = wrap[1](src)
                 extra["ptr"] = ptr
-                res = ptr.translate(tgt, populate=populate, keys=keys, solver=solver)
+                res = ptr.translate(tgt, populate=populate, keys=keys_arg, solver=solver)
                 T = None
             elif wrap[0] == "s":
                 sym = PointerSymbol(wrap[1], wrap[2](src))
-                res = spa.translate(sym, tgt, populate=populate, keys=keys, solver=solver)
+                res = spa.translate(sym, tgt, populate=populate, keys=keys_arg, solver=solver)
                 T = None
             else:
                 with spa.Network():
                     node = wrap[1](src)
-                    res = spa.translate(node, tgt, populate, keys, solver)
+                    res = spa.translate(node, tgt, populate, keys_arg, solver)
                 T = res.transform
         except Exception as ex:  # noqa: BLE001
             exc = type(ex).__name__
@@ -374,6 +383,24 @@ def run_transform_case(ctx, name, sspec, tspec, keys, pop, use_solver, wrap, sta
                             ctx.fail(dict(case, used_keys=used, key=k), y.tolist(), list(dict(tgt_ents)[k]),
                                      where="lstsq-exact")
                             break
+        # history: the target gains the missing keys by hand, then the SAME request is made again: the transform
+        # follows the vocabularies as they are now (nothing remembered from the earlier call)
+        if wrap[0] == "v" and populate is not True and missing and not use_solver and t_after == t_before:
+            gained = {}
+            for kk in missing:
+                vec_ = [float((i_ * 3 + len(kk)) % 5 - 2) / 2 for i_ in range(d2)]
+                tgt.add(kk, vec_)
+                gained[kk] = vec_
+            with warnings.catch_warnings():
+                warnings.simplefilter("ignore")
+                T2 = np.array(src.transform_to(tgt, populate=populate, keys=None if keys is None else list(keys)), dtype=float)
+            tgt_now = list(zip(*snap(tgt)))
+            used2 = [k for k in req_src if k in dict(tgt_now)]
+            E2 = expected_outer(src_ents, tgt_now, used2, d1, d2)
+            stats["repeat_after_gain"] = stats.get("repeat_after_gain", 0) + 1
+            if T2.shape != (d2, d1) or not mat_close(T2, E2, 4.0):
+                ctx.fail(dict(case, history="transform_to; target.add(missing keys); transform_to again", gained=sorted(gained)),
+                         T2.tolist(), [[str(x) for x in r] for r in E2], where="transform-after-target-gain")
         # wrappers: the result object
         if wrap[0] in "ps":
             val = np.array(extra["ptr"].v) if wrap[0] == "p" else np.array(wrap[3](src_ents))
